@@ -158,10 +158,13 @@ def run_batch(progs, race=False, env_extra=None, cmd_timeout_ms=None):
             r.h = got[0] if got else []
         else:
             r.h = got[0]
+    sid = id(res)
+    for r in res:
+        r.shard_id = sid
     if race and ('DATA RACE' in err):
         for r in res:
             r.note += ' RACE-REPORT-IN-SHARD'
-        res[0].race_report = err[:4000]
+        res[0].race_report = err[:6000]
     # rerun crashed programs alone, to attribute the crash
     if crashed and len(progs) > 1:
         for r in crashed:
